@@ -21,7 +21,7 @@ func checkC15(r *Run) {
 	r.Rule("R6", "every statement node is stamped with the token that is current BEFORE its expression is parsed (the first token of the statement)", 4)
 	r.Rule("R7", "the recorded syntax errors reach the caller in recording order: nothing on the way sorts the message list (a string sort of 'line N:' prefixes is not shift invariant)", 1)
 	parserMessagesRule(r, "R1")
-	evaluatorExitRule(r, "R2")
+	coreTopLevelRules(r, "", "R2")
 	curStmtRule(r, "R3")
 	tokenLineRuleSSA(r, "R4")
 	cursorOwnershipRule(r, "R5")
@@ -343,7 +343,7 @@ func curStmtRule(r *Run, rule string) {
 	w := r.W
 	cur := w.compilerField("curStmt")
 	top := w.topLevelEval()
-	stmtEval := w.evalMethod("Statement")
+	stmtEval := w.inBlockStmtEval()
 	if cur == nil || top == nil || stmtEval == nil {
 		r.Lost(rule, "current-statement field / top-level evaluator / statement evaluator")
 		return
